@@ -8,14 +8,14 @@ import (
 )
 
 // want:ABSORB sequential update reads the overwritten minimum.
-func BoundsBad(min, max model3d.Coord3D) (model3d.Coord3D, model3d.Coord3D) {
+func BoundsBadAbsorb(min, max model3d.Coord3D) (model3d.Coord3D, model3d.Coord3D) {
 	min = min.Min(max)
 	max = max.Max(min)
 	return min, max
 }
 
 // clean:ABSORB
-func BoundsGood(min, max model3d.Coord3D) (model3d.Coord3D, model3d.Coord3D) {
+func BoundsGoodAbsorb(min, max model3d.Coord3D) (model3d.Coord3D, model3d.Coord3D) {
 	return min.Min(max), max.Max(min)
 }
 
@@ -280,4 +280,70 @@ func (c chainRev) Inverse() inv {
 		res = append(res, t.Inverse())
 	}
 	return res
+}
+
+// want:CYCLE the edge from corner 2 back to corner 0 is never counted.
+func OpenEdgesBad(tris [][3]model3d.Coord3D) map[[2]model3d.Coord3D]int {
+	res := map[[2]model3d.Coord3D]int{}
+	for _, t := range tris {
+		for i := 0; i < 2; i++ {
+			res[[2]model3d.Coord3D{t[i], t[(i+1)%3]}]++
+		}
+	}
+	return res
+}
+
+// clean:CYCLE
+func OpenEdgesGood(tris [][3]model3d.Coord3D) map[[2]model3d.Coord3D]int {
+	res := map[[2]model3d.Coord3D]int{}
+	for _, t := range tris {
+		for i := 0; i < 3; i++ {
+			res[[2]model3d.Coord3D{t[i], t[(i+1)%3]}]++
+		}
+	}
+	return res
+}
+
+// want:EDGETABLE the closing edge runs the wrong way.
+func DirectedEdgesBad(t *model3d.Triangle) [3][2]model3d.Coord3D {
+	return [3][2]model3d.Coord3D{{t[0], t[1]}, {t[1], t[2]}, {t[0], t[2]}}
+}
+
+// clean:EDGETABLE
+func DirectedEdgesGood(t *model3d.Triangle) [3][2]model3d.Coord3D {
+	return [3][2]model3d.Coord3D{{t[0], t[1]}, {t[1], t[2]}, {t[2], t[0]}}
+}
+
+// clean:FIRSTFLAG
+func BoundsGood(faces [][3]model3d.Coord3D) model3d.Coord3D {
+	var result model3d.Coord3D
+	var seen bool
+	for _, t := range faces {
+		for _, c := range t {
+			if !seen {
+				result = c
+				seen = true
+			} else {
+				result = result.Min(c)
+			}
+		}
+	}
+	return result
+}
+
+// want:FIRSTFLAG the flag is cleared once per face, not once per vertex.
+func BoundsBad(faces [][3]model3d.Coord3D) model3d.Coord3D {
+	var result model3d.Coord3D
+	first := true
+	for _, t := range faces {
+		for _, c := range t {
+			if first {
+				result = c
+			} else {
+				result = result.Min(c)
+			}
+		}
+		first = false
+	}
+	return result
 }
